@@ -904,13 +904,18 @@ class CallMixin:
             if name == "clear":
                 self.store_lvalue(tgt, st, list_empty(s.elem))
                 return [(st, VNONE)]
-            if name == "popleft":
+            if name == "task_done":
+                return [(st, VNONE)]          # asyncio.Queue bookkeeping for join(): no effect on the modelled queue
+            if name in ("popleft", "get"):
                 cur = self.named(st, self.load_lvalue(tgt, st))
                 n = cur.t[0]
                 out = []
-                s_empty = st.copy().assume(n <= 0)
-                if self.feasible(s_empty):
-                    self.raised.append(Outcome("raise", s_empty, ExcVal("IndexError")))
+                if name == "popleft":
+                    s_empty = st.copy().assume(n <= 0)
+                    if self.feasible(s_empty):
+                        self.raised.append(Outcome("raise", s_empty, ExcVal("IndexError")))
+                # `await queue.get()` BLOCKS while the queue is empty (other tasks are the producers, A-seq): control comes back
+                # only with an element - the empty case is not a path of this function
                 st.assume(n > 0)
                 head = list_get(cur, z3.IntVal(0))
                 rest = fresh(cur.sort, "rest")
